@@ -227,6 +227,11 @@ def check_c09(pid, tier, seed, rep):
         probs = []
         if r["kind"] == "valid":
             probs = [p for p in r["problems"] if "unparsed" not in p]
+        elif r["kind"] == "companion":
+            if r["rc"] == 0:
+                probs.append("a file containing a refused declaration was processed with exit 0")
+            if not r.get("untouched", True):
+                probs.append("output file was created or modified although a declaration of the same file must be refused")
         else:
             if r["rc"] == 0:
                 probs.append("declaration with a planted %s was accepted (exit 0)" % r["kind"])
@@ -294,6 +299,20 @@ def check_c10(pid, tier, seed, rep):
                                                    observed=dict(params=ob["params"], results=ob["results"]), expected=exp,
                                                    declaration=S["case_text"].get(str(r["id"]), [None])[0]),
                           "%s %s: %s" % (r["pkg"], r["name"], probs[0][:300]))
+    # declared names in invocations over several packages (both declare an injector of the same name)
+    import stage_n
+    N = stage_n.stage(seed, tier)
+    for r in N["records"]:
+        for band, names in (r["meta"].get("expect_funcs") or {}).items():
+            txt = (r.get("band") or {}).get(band)
+            if r["gen_rc"] != 0 or txt is None:
+                continue
+            got = re.findall(r"^func (\w+)\(", txt, re.M)
+            if got != names:
+                nviol += 1
+                rep.violation("name-%s-%s" % (r["name"], band.replace("/", "_")), dict(package_dir=os.path.join(N["srcdir"], r["dir"]), file=band, declared=names, generated=got,
+                                                                                   how="cd <package_dir> && kessoku <both files in one invocation>"),
+                              "%s %s: generated functions %s, declared injectors %s" % (r["name"], band, got, names))
     if bad and not nviol:
         r, why = bad[0]
         rep.violation("corrS-%d" % r["id"], dict(correspondence="signature of coq/CorrS.v:usig differs from the generated function",
